@@ -476,3 +476,61 @@ class WelchChangeScore(BaseChangeScore):
                 a, b = self._rows[s:k], self._rows[k:e]
                 out[i] = np.abs(b.mean(axis=0) - a.mean(axis=0)) / np.sqrt(a.var(axis=0) / len(a) + b.var(axis=0) / len(b) + self.floor)
         return out
+
+
+class ModalL1Cost(L1Cost):
+    """The same cost as L1Cost, written the way the built-in GaussianCovCost is: `_fit` prepares *different* things for the
+    two parameter modes - prefix sums of |x - location| for a fixed location, the raw rows for the optimal (median) mode."""
+
+    def _fit(self, X, y=None):
+        X = np.asarray(X, dtype=float)
+        if X.ndim == 1:
+            X = X.reshape(-1, 1)
+        for attr in ("_rows_for_median", "_abs_sums"):
+            if hasattr(self, attr):
+                delattr(self, attr)
+        if self.param is None:
+            self._rows_for_median = X
+        else:
+            loc = np.asarray(self.param, dtype=float).reshape(-1)
+            if loc.size not in (1, X.shape[1]):
+                raise ValueError("location must have length 1 or p")
+            self._abs_sums = np.concatenate((np.zeros((1, X.shape[1])), np.cumsum(np.abs(X - loc), axis=0)))
+        return self
+
+    def _evaluate_optim_param(self, starts, ends):
+        rows = self._rows_for_median
+        return np.array([self.scale * np.abs(rows[s:e] - np.median(rows[s:e], axis=0)).sum(axis=0) for s, e in zip(starts, ends)])
+
+    def _evaluate_fixed_param(self, starts, ends):
+        return self.scale * (self._abs_sums[ends] - self._abs_sums[starts])
+
+
+class SeriesScaledLocalScore(BaseLocalAnomalyScore):
+    """A user-defined local anomaly score standardised by a *series-wide* robust noise scale (the MAD of the first
+    differences of the data it was fitted on): n_inner (mean_inner - mean_surroundings)^2 / sigma^2 per column."""
+
+    def __init__(self, c=1.4826):
+        self.c = c
+        super().__init__()
+
+    @property
+    def min_size(self):
+        return 1
+
+    def _fit(self, X, y=None):
+        Xa = np.asarray(X, dtype=float)
+        Xa = Xa.reshape(-1, 1) if Xa.ndim == 1 else Xa
+        d = np.diff(Xa, axis=0) if len(Xa) > 1 else np.ones((1, Xa.shape[1]))
+        mad = self.c * np.median(np.abs(d - np.median(d, axis=0)), axis=0) / np.sqrt(2.0)
+        self._sigma2 = np.where(mad > 0, mad, 1.0) ** 2
+        self._sums = np.concatenate((np.zeros((1, Xa.shape[1])), np.cumsum(Xa, axis=0)))
+        return self
+
+    def _evaluate(self, cuts):
+        s, a, b, e = cuts[:, 0], cuts[:, 1], cuts[:, 2], cuts[:, 3]
+        ni = (b - a).astype(float)[:, None]
+        ns = ((a - s) + (e - b)).astype(float)[:, None]
+        inner = (self._sums[b] - self._sums[a]) / ni
+        sur = ((self._sums[a] - self._sums[s]) + (self._sums[e] - self._sums[b])) / ns
+        return ni * (inner - sur) ** 2 / self._sigma2
